@@ -16,7 +16,8 @@ P = "FimVerif.C05."
 THEOREMS = [P + t for t in ("identity_unset_refused", "identity_names_listed", "class_update_refused",
                               "identity_props_protected", "identity_merge_class_counterexample",
                               "add_node_existing_id_refused", "nid_unique", "nid_unique_reachable",
-                              "merge_keeps_edges", "merge_policy", "merge_failure_atomic")]
+                              "merge_keeps_edges", "merge_policy", "merge_failure_atomic",
+                              "shared_refines_spec", "shared_refines_history", "disjoint_refines_spec", "backends_agree")]
 TRUSTED_BASE = [
     "Model/Store.lean, Model/DStore.lean mirror the two backends method by method; Model/AGraph.lean (`AGraph.step`) is the "
     "reference model of the documented interface (hand-written; all three are run in lock step against the real classes)",
@@ -31,7 +32,8 @@ ASSUMPTIONS = [
     "and lock-step comparison of that backend stops at the first successful merge",
     "imports and clones are C04's (the backends deliberately differ there: replace vs. warn-and-skip)",
 ]
-RULE = ("operation histories (depth <= 40; exhaustive to depth 3-4 over a reduced alphabet in the thorough tier) over 3 graph ids, "
+RULE = ("corpus first, then state-aware operation histories (depth <= 40) plus every continuation of depth 2 (quick) / 3 (thorough) of a "
+        "fixed two-graph prefix over a 43-operation alphabet; 3 graph ids, "
         "4 node ids, 3 classes, 2 relations, property names {Name, Type, Class, NodeID, GraphID (unset only), p, q}; non-trivial = "
         ">= 2 graphs touched and >= 1 failing call; distinct by op-kind sequence")
 
@@ -52,15 +54,20 @@ def load_corpus():
 
 
 def gen_histories(ctx, tag, n, length):
+    """state-aware generator: node and link operations are biased towards nodes / links that earlier requests of the
+    same history created (otherwise almost every link operation fails on "no such link")"""
     rng = ctx.sub_rng(tag)
     hs = load_corpus()
     gids, nids = ["g1", "g2", "g3"], ["n1", "n2", "n3", "n4"]
     for _ in range(n):
-        h = []
+        h, sh = [], L.Shadow()
         for _ in range(rng.randint(2, 7)):
             h.append(L.gen_op(rng, gids[:2] if rng.random() < 0.7 else gids, nids[:3], kinds=["add_node"]))
-        while len(h) < rng.randint(8, length):
-            h.append(L.gen_op(rng, gids, nids, kinds=C05_KINDS))
+            sh.note(h[-1])
+        want = rng.randint(8, length)
+        while len(h) < want:
+            h.append(sh.aim(rng, L.gen_op(rng, gids, nids, kinds=C05_KINDS), gids))
+            sh.note(h[-1])
         hs.append(h)
     return hs
 
@@ -74,7 +81,10 @@ class RefErr(Exception):
 
 
 class Ref:
-    """graphs: id -> {"nodes": [dict], "edges": [[node_dict, node_dict, dict]]}; no internal ids"""
+    """Node dictionaries per graph id and one list of links over those dictionaries (by object identity; no
+    internal ids).  A link joins two nodes of one graph, except that merge_nodes re-attaches the links of the
+    absorbed node to the survivor, which may leave a link between nodes of two graphs; such a link belongs to
+    neither graph's content until the caller re-homes the other graph (merge_adm does)."""
     NO_UNSET = None
     LABEL = None
 
@@ -83,25 +93,26 @@ class Ref:
         Ref.NO_UNSET = list(C.NO_UNSET_PROPERTIES)
         Ref.LABEL = C.PROP_CLASS
         self.g = {}
+        self.E = []
 
     def gr(self, g):
-        return self.g.setdefault(g, {"nodes": [], "edges": []})
+        return self.g.setdefault(g, [])
 
     def find(self, g, nid):
-        m = [n for n in self.gr(g)["nodes"] if n.get("NodeID") == nid]
+        m = [n for n in self.gr(g) if n.get("NodeID") == nid]
         if len(m) != 1:
             raise RefErr("query")
         return m[0]
 
-    def edge(self, g, a, b):
-        for e in self.gr(g)["edges"]:
+    def edge(self, a, b):
+        for e in self.E:
             if (e[0] is a and e[1] is b) or (e[0] is b and e[1] is a):
                 return e
         return None
 
     def link(self, g, a, b, kind):
         na, nb = self.find(g, a), self.find(g, b)
-        e = self.edge(g, na, nb)
+        e = self.edge(na, nb)
         if e is None or e[2].get(self.LABEL) != kind:
             raise RefErr("query")
         return e
@@ -111,6 +122,9 @@ class Ref:
             if "NodeID" not in n:
                 raise RefErr("key")
         return [n["NodeID"] for n in nodes]
+
+    def drop_nodes(self, nodes):
+        self.E = [e for e in self.E if not any(e[0] is n or e[1] is n for n in nodes)]
 
     def apply(self, req):
         try:
@@ -123,26 +137,26 @@ class Ref:
         G = self.gr(g)
         LABEL = self.LABEL
         if op == "add_node":
-            if any(n.get("NodeID") == a[0] for n in G["nodes"]):
+            if any(n.get("NodeID") == a[0] for n in G):
                 raise RefErr("query")
             d = {LABEL: a[1], "NodeID": a[0]}
             d.update(a[2] or {})
-            G["nodes"].append(d)
+            G.append(d)
         elif op == "delete_node":
             n = self.find(g, a[0])
-            G["nodes"] = [x for x in G["nodes"] if x is not n]
-            G["edges"] = [e for e in G["edges"] if e[0] is not n and e[1] is not n]
+            self.g[g] = [x for x in G if x is not n]
+            self.drop_nodes([n])
         elif op == "add_link":
             na, nb = self.find(g, a[0]), self.find(g, a[2])
             if a[3] and LABEL in a[3]:
                 raise RefErr("type")
             d = {LABEL: a[1]}
             d.update(a[3] or {})
-            e = self.edge(g, na, nb)
+            e = self.edge(na, nb)
             if e:
                 e[2].update(d)
             else:
-                G["edges"].append([na, nb, d])
+                self.E.append([na, nb, d])
         elif op == "update_node_property":
             if a[1] == LABEL:
                 raise RefErr("query")
@@ -155,9 +169,9 @@ class Ref:
                 raise RefErr("query")
             del n[a[1]]
         elif op == "update_nodes_property":
-            if not G["nodes"] or a[0] == LABEL:
+            if not G or a[0] == LABEL:
                 raise RefErr("query")
-            for n in G["nodes"]:
+            for n in G:
                 n[a[0]] = a[1]
         elif op == "update_node_properties":
             if LABEL in a[1]:
@@ -176,7 +190,8 @@ class Ref:
                 raise RefErr("query")
             self.link(g, a[0], a[1], a[2])[2].update(a[3])
         elif op == "delete_graph":
-            G["nodes"], G["edges"] = [], []
+            self.drop_nodes(G)
+            self.g[g] = []
         elif op == "get_node_properties":
             n = dict(self.find(g, a[0]))
             if LABEL not in n:
@@ -186,39 +201,38 @@ class Ref:
             return [lab, [[k, v] for k, v in n.items()]]
         elif op == "get_link_properties":
             na, nb = self.find(g, a[0]), self.find(g, a[1])
-            e = self.edge(g, na, nb)
+            e = self.edge(na, nb)
             if e is None or LABEL not in e[2]:
                 raise RefErr("query")
             d = dict(e[2])
             lab = d.pop(LABEL)
             return [lab, [[k, v] for k, v in d.items()]]
         elif op == "list_all_node_ids":
-            if not G["nodes"]:
+            if not G:
                 raise RefErr("query")
-            return self.nids(G["nodes"])
+            return self.nids(G)
         elif op == "nodes_by_class":
-            return self.nids([n for n in G["nodes"] if n.get(LABEL) == a[0]])
+            return self.nids([n for n in G if n.get(LABEL) == a[0]])
         elif op == "nodes_by_class_and_type":
-            return self.nids([n for n in G["nodes"] if n.get(LABEL) == a[0] and n.get("Type") == a[1]])
+            return self.nids([n for n in G if n.get(LABEL) == a[0] and n.get("Type") == a[1]])
         elif op == "node_exists":
-            m = [n for n in G["nodes"] if n.get("NodeID") == a[0] and n.get(LABEL) == a[1]]
+            m = [n for n in G if n.get("NodeID") == a[0] and n.get(LABEL) == a[1]]
             if len(m) > 1:
                 raise RefErr("query")
             return len(m) == 1
         elif op == "graph_exists":
-            return len(G["nodes"]) > 0
+            return len(G) > 0
         elif op == "check_node_unique":
-            return not [n for n in G["nodes"] if n.get("Name") == a[1] and n.get(LABEL) == a[0]]
+            return not [n for n in G if n.get("Name") == a[1] and n.get(LABEL) == a[0]]
         elif op == "find_matching_nodes":
-            if not G["nodes"]:
+            if not G:
                 raise RefErr("query")
-            mine = self.nids(G["nodes"])
-            O = self.gr(a[0])
-            theirs = self.nids(O["nodes"])
+            mine = self.nids(G)
+            theirs = self.nids(self.gr(a[0]))
             return sorted(set(mine) & set(theirs))
         elif op == "merge_nodes":
             O = self.gr(a[1])
-            if not O["nodes"]:
+            if not O:
                 raise RefErr("assertion")
             u = self.find(g, a[0])
             v = self.find(a[1], a[0])
@@ -233,11 +247,15 @@ class Ref:
                         raise RefErr("key")
                     new[k] = (val if k not in pol or pol[k] == "discard" else theirs[k] if pol[k] == "overwrite"
                               else [val, theirs[k]] if pol[k] == "combine" else None)
-            # the absorbed node leaves the other graph; its links now hang off the survivor.  A link to a
-            # node of the other graph is a cross-graph link, visible in neither graph's content until the
-            # caller re-homes the other nodes (merge_adm does)
-            O["nodes"] = [x for x in O["nodes"] if x is not v]
-            O["edges"] = [e for e in O["edges"] if e[0] is not v and e[1] is not v]
+            # the absorbed node leaves the other graph; each of its links is re-attached to the survivor unless the
+            # survivor already has a link to that neighbour, which then stays as it is
+            self.g[a[1]] = [x for x in O if x is not v]
+            moved = [e for e in self.E if e[0] is v or e[1] is v]
+            self.E = [e for e in self.E if e[0] is not v and e[1] is not v]
+            for e in moved:
+                w, x = (u if e[0] is v else e[0]), (u if e[1] is v else e[1])
+                if self.edge(w, x) is None:
+                    self.E.append([w, x, e[2]])
             u.clear()
             u.update(new)
         else:
@@ -246,9 +264,9 @@ class Ref:
 
     def content(self, g):
         G = self.gr(g)
-        nodes = sorted(canon(sorted([k, v] for k, v in n.items())) for n in G["nodes"])
+        nodes = sorted(canon(sorted([k, v] for k, v in n.items())) for n in G)
         edges = sorted(canon([sorted([canon(e[0].get("NodeID")), canon(e[1].get("NodeID"))]), sorted([k, v] for k, v in e[2].items())])
-                       for e in G["edges"])
+                       for e in self.E if any(e[0] is n for n in G) and any(e[1] is n for n in G))
         return {"nodes": nodes, "edges": edges}
 
 
@@ -511,23 +529,37 @@ def nid_unique(be, g):
     return True
 
 
+PREFIX = [["add_node", "g1", "n1", "NetworkNode", {"Name": "x"}], ["add_node", "g1", "n2", "Link", None],
+          ["add_link", "g1", "n1", "has", "n2", {"p": "x"}], ["add_node", "g2", "n1", "Link", {"Name": "y"}],
+          ["add_node", "g2", "n2", "Link", None], ["add_link", "g2", "n2", "connects", "n1", None]]
+
+
 def small_alphabet():
-    """reduced alphabet for the exhaustive small-scope enumeration"""
+    """reduced alphabet for the exhaustive small-scope enumeration (run after PREFIX: two graphs, a link in each)"""
     A = []
     for g in ("g1", "g2"):
-        A.append(["add_node", g, "n1", "NetworkNode", None])
-        A.append(["add_node", g, "n1", "Link", {"Name": "x"}])
-        A.append(["add_node", g, "n2", "Link", None])
-        A.append(["add_link", g, "n1", "has", "n2", None])
+        A.append(["add_node", g, "n1", "ConnectionPoint", None])
+        A.append(["add_node", g, "n3", "Link", {"Name": "x"}])
+        A.append(["add_link", g, "n1", "has", "n2", {"q": "y"}])
+        A.append(["add_link", g, "n2", "connects", "n3", None])
         A.append(["delete_node", g, "n1"])
         A.append(["update_node_property", g, "n1", "p", "x"])
+        A.append(["update_node_property", g, "n1", "Class", "Link"])
         A.append(["unset_node_property", g, "n1", "p"])
         A.append(["unset_node_property", g, "n1", "Name"])
         A.append(["update_nodes_property", g, "Class", "y"])
+        A.append(["update_node_properties", g, "n2", {"Type": "x", "q": ""}])
+        A.append(["update_link_property", g, "n2", "n1", "has", "Class", "connects"])
+        A.append(["update_link_property", g, "n1", "n2", "has", "p", "y"])
+        A.append(["unset_link_property", g, "n1", "n2", "has", "Class"])
+        A.append(["unset_link_property", g, "n1", "n2", "connects", "p"])
+        A.append(["update_link_properties", g, "n1", "n2", "has", {"Class": "x"}])
         A.append(["delete_graph", g])
         A.append(["list_all_node_ids", g])
         A.append(["get_node_properties", g, "n1"])
+        A.append(["get_link_properties", g, "n2", "n1"])
     A.append(["merge_nodes", "g1", "n1", "g2", {"Name": "combine"}])
+    A.append(["merge_nodes", "g2", "n2", "g1", None])
     A.append(["find_matching_nodes", "g1", "g2"])
     return A
 
@@ -543,7 +575,7 @@ def oracle(ctx, res, n=None, length=40, exhaustive=None):
     A = small_alphabet()
     cnt = 0
     for h in itertools.product(A, repeat=depth):
-        check_history([copy.deepcopy(r) for r in h], res)
+        check_history([copy.deepcopy(r) for r in PREFIX] + [copy.deepcopy(r) for r in h], res)
         cnt += 1
     res.evaluations += cnt
     res.count("exhaustive-depth-%d" % depth, cnt)
